@@ -54,15 +54,18 @@ impl Scheduler {
                         return true;
                     }
                     let ctx = &task.create_context();
-                    // the task that has scheduled it can be given up as well (aborted with its
-                    // process, skipped, failed...) before the task has started: it is closed
+                    // the task that has scheduled it, or the whole process (it has failed in another
+                    // branch), can be given up as well (aborted, skipped, failed...) before the task
+                    // has started: it is closed
                     // instead of started beneath a parent that was given up (lifecycle hook acts
                     // run after their task is closed on purpose)
+                    let proc_state = proc.state();
                     if task.state().is_none()
                         && !task.is_event_processed()
-                        && task
-                            .parent()
-                            .is_some_and(|p| p.state().is_completed() && !p.state().is_success())
+                        && ((proc_state.is_completed() && !proc_state.is_success())
+                            || task.parent().is_some_and(|p| {
+                                p.state().is_completed() && !p.state().is_success()
+                            }))
                     {
                         if task.is_kind(NodeKind::Branch) {
                             task.set_emit_disabled(true);
